@@ -35,7 +35,7 @@ func (r *FnRun) env(st, old *State) *Env {
 	for k, v := range r.lets {
 		e.vars[k] = v
 	}
-	if r.Fn.Pkg != nil {
+	if r.Fn != nil && r.Fn.Pkg != nil {
 		e.pkg = r.Fn.Pkg.Pkg
 	}
 	return e
